@@ -13,10 +13,16 @@ func otherKinds() {
 	control.ParseChanges(bufio.NewReader(strings.NewReader("Format: 1.8\nSource: w\nBinary: w1 w2 w3\nArchitecture: source amd64\nVersion: 1-1\nMaintainer: A <a@b.c>\nCloses: 1 2\nFiles:\n d41d8cd98f00b204e9800998ecf8427e 0 devel optional w_1-1.dsc\n")), "")
 	control.ParseSourceIndex(bufio.NewReader(strings.NewReader("Package: v\nBinary: v1, v2\nVersion: 1\nArchitecture: any all\nFiles:\n d41d8cd98f00b204e9800998ecf8427e 0 v_1.dsc\n")))
 	control.ParseBinaryIndex(bufio.NewReader(strings.NewReader("Package: u\nVersion: 1\nArchitecture: amd64\nTag: a::b, c::d\nBuild-Ids: 1 2\n")))
+	control.ParseDsc(bufio.NewReader(strings.NewReader("Format: 3.0 (quilt)\nSource: s\nBinary: s1, s2, s3\nArchitecture: any all\nVersion: 1-1\nMaintainer: A <a@b.c>\nUploaders: B <b@b.c>, C <c@b.c>\nFiles:\n d41d8cd98f00b204e9800998ecf8427e 0 s_1.orig.tar.gz\n")), "")
 	control.ParseControl(bufio.NewReader(strings.NewReader("Source: t\nMaintainer: A <a@b.c>\nUploaders: B <b@b.c>, C <c@b.c>\nBuild-Depends: x, y\n\nPackage: t1\nArchitecture: any all\n")), "")
 }
 
 func init() {
+	// tdocafter kind text: the typed parser in a process that has decoded documents of the other kinds first
+	ops["tdocafter"] = func(a []string) string {
+		otherKinds()
+		return ops["tdoc"](a)
+	}
 	// dscorderafter: the same, in a process that has decoded documents of the other kinds first
 	ops["dscorderafter"] = func(a []string) string {
 		otherKinds()
